@@ -86,7 +86,11 @@ def check(run):
         sorts = [c for c in ar.calls() if q.callee_name(c) in ('std::sort', 'std::reverse', 'std::stable_sort', 'std::shuffle', 'std::unique', 'std::rotate')]
         run.check(okl and not others and not sorts, 'R2k', 'results-order', '%s<%s>' % (ar.norm, tag), ar.loc(), 'the result list is not built by one forward pass appending (ip, port) for each configured address', 'single range-for over `result` with emplace_back(ip, port)')
         ports = [v for n in ar.all_nodes() if n['k'] == 'decl' for v in n['vars'] if (getattr(ar, 'alias', None) or {}).get(v.get('did'), v.get('name')) == 'port']
-        run.check(bool(ports) and all(q.render(ar, v['init']) in ('atoi(service)', 'std::atoi(service)') for v in ports), 'R4', 'port-from-service', '%s<%s>' % (ar.norm, tag), ar.loc(), 'the port is not parsed from the service string', 'port = atoi(service)')
+        def from_atoi(e):
+            """the value comes from atoi(service): directly, or through a conversion helper spliced into this view"""
+            texts = [q.render(ar, x) for x in walk(e) if x['k'] == 'call']
+            return any(t in ('atoi(service)', 'std::atoi(service)') for t in texts)
+        run.check(bool(ports) and all(from_atoi(v['init']) for v in ports), 'R4', 'port-from-service', '%s<%s>' % (ar.norm, tag), ar.loc(), 'the port is not parsed from the service string', 'port = atoi(service)')
 
         if tag == 'tcp':
             run.clause('armed while non-empty: every path that queues an entry re-arms m_timer for the front entry')
@@ -146,11 +150,18 @@ def check(run):
         arms = q.sites(ol, lambda f: [c for c in f.calls() if (q.callee_name(c) or '').endswith('high_resolution_timer::expires_at') and c.get('args') and q.render(f, c['args'][0]) == 'm_queue.front().completion_time'])
         # in the abstract state "entries remain after the pop" (the sampled flag `empty` is false) every path from the
         # handler invocation to the exit re-arms the timer; branches on the flag are followed along that edge only
-        remain = lambda atom: {'empty': False, 'm_queue.empty()': False, 'm_queue.size()': True}.get(q.render(ol, q.strip_casts(atom)))
+        def remain(atom, depth=0):
+            a_ = q.strip_casts(atom)
+            v_ = {'m_queue.empty()': False, 'm_queue.size()': True}.get(q.render(ol, a_))
+            if v_ is None and is_node(a_) and a_['k'] == 'ref' and a_.get('dk') == 'local' and depth < 3:
+                ds_ = q.local_defs(ol, a_['did'])       # a flag sampled from the queue (`empty`, `more_queued = !m_queue.empty()`) stands for its definition
+                if len(ds_) == 1:
+                    return q.eval3(ds_[0][1], lambda x: remain(x, depth + 1))
+            return v_
         run.check(bool(inv) and bool(arms) and not any(q.exit_reachable_under(ol, f.site, arms, remain) for f in inv), 'R10', 'resolver-timer', '%s<%s>' % (ol.norm, tag), ol.loc(), 'after serving an entry the timer is not re-armed for the next one on every path where the queue is non-empty', 're-armed unless empty')
-        ed = [v for v in [q.local_var(ol, 'empty')] if v]
+        ed = [v for n in ol.all_nodes() if n['k'] == 'decl' for v in n['vars'] if v.get('init') is not None and 'bool' in ol.ty(v['t']) and 'm_queue.' in q.render(ol, v['init'])]
         if ed:
-            run.check(q.render(ol, ed[0]['init']) == 'm_queue.empty()' and all(q.precedes(ol, er[0], n) for n in ol.all_nodes() if n['k'] == 'decl' and any(v is ed[0] for v in n['vars'])) if er else False,
+            run.check(q.render(ol, q.strip_casts(ed[0]['init'])).replace('!', '') in ('m_queue.empty()', 'm_queue.size()') and all(q.precedes(ol, er[0], n) for n in ol.all_nodes() if n['k'] == 'decl' and any(v is ed[0] for v in n['vars'])) if er else False,
                       'R10', 'resolver-empty-flag', '%s<%s>' % (ol.norm, tag), ol.loc(), '`empty` is not m_queue.empty() sampled after the pop', '`empty` sampled after the pop')
     for cn in fx.fn(R + '::cancel'):
         run.touch(cn)
